@@ -53,8 +53,16 @@ def install_checker_model(ctx):
         if isinstance(f, AbsFunc):
             outs = []
             r = SV(smt.fresh("func_result", V))
-            for tag, payload in (("ret", r), ("listed", Raised(ExcVal("ListedExc", {}, origin="func"))),
-                                 ("unlisted", Raised(ExcVal("UnlistedExc", {}, origin="func")))):
+            outcomes = [("ret", r), ("listed", Raised(ExcVal("ListedExc", {}, origin="func"))),
+                        ("unlisted", Raised(ExcVal("UnlistedExc", {}, origin="func")))]
+            # the function may raise an instance of ANY class: also of each built-in class that the code under
+            # verification names in an `except` clause (listed in `raises` or not)
+            for base in I.ctx.config.get("named_exception_classes", ()):
+                EXC_PARENTS.setdefault("Listed" + base, base)
+                EXC_PARENTS.setdefault("Unlisted" + base, base)
+                outcomes.append(("listed", Raised(ExcVal("Listed" + base, {}, origin="func"))))
+                outcomes.append(("unlisted", Raised(ExcVal("Unlisted" + base, {}, origin="func"))))
+            for tag, payload in outcomes:
                 s = st.fork()
                 s.ghost["func_outcome"] = (tag, payload)
                 s.ghost["func_calls"] = s.ghost.get("func_calls", 0) + 1
@@ -64,7 +72,7 @@ def install_checker_model(ctx):
 
     def exc_names_hook(I, v, st):
         if isinstance(v, AbsRaises):
-            return ["ListedExc"]
+            return ["ListedExc"] + ["Listed" + b for b in I.ctx.config.get("named_exception_classes", ())]
         return None
 
     def unpack_hook(I, v, n, st):
@@ -122,6 +130,13 @@ class FormatTask(CoreTask):
         inst, fmt = SV(z3.Const("instance", V)), SV(z3.Const("format", V))
         st.unit = unit
         st.pc.append(kind(fmt.t) == K_STR)
+        named = set()
+        for h in ast.walk(unit.node):
+            if isinstance(h, ast.ExceptHandler) and h.type is not None:
+                for nm in ast.walk(h.type):
+                    if isinstance(nm, ast.Name) and nm.id in EXC_PARENTS and nm.id not in ("Exception", "BaseException"):
+                        named.add(nm.id)
+        ctx.config["named_exception_classes"] = tuple(sorted(named))
         outs = I.run_unit(unit, st, [fc, inst, fmt], {})
         res["paths"] = len(outs)
         obls = list(ctx.obligations)
@@ -153,7 +168,7 @@ class FormatTask(CoreTask):
                     else:
                         goal, note = z3.BoolVal(False), "FormatError without a reason"
                     obls.append(core.Obligation("%s/F/format-error#%d" % (self.name, n), "F", s.pc, goal, note=note))
-                elif exc.cls == "UnlistedExc":
+                elif exc.cls.startswith("Unlisted"):
                     good = oc and oc[0] == "unlisted" and exc is oc[1].exc
                     obls.append(core.Obligation("%s/F/propagates#%d" % (self.name, n), "F", s.pc, z3.BoolVal(bool(good)),
                                                 note="an exception not listed in `raises` reaches the caller unchanged"))
